@@ -931,6 +931,11 @@ async fn limited_flood_family(cli: &Cli, report: &mut Report, late: &LateLog) {
             let t_a = Instant::now();
             let p = probe_from("during-flood", addr, Some(probe_src(9_100 + round * 10 + i as u64)), 9_100 + round * 10 + i as u64, BOUND + Duration::from_secs(10)).await;
             probes.push((p, late.worst_between(t_a, Instant::now())));
+            // the same client again: its second visit is within its own allowance (2 per hour),
+            // whatever others have used up or been refused
+            let t_b = Instant::now();
+            let p = probe_from("during-flood-second-visit", addr, Some(probe_src(9_100 + round * 10 + i as u64)), 9_150 + round * 10 + i as u64, BOUND + Duration::from_secs(10)).await;
+            probes.push((p, late.worst_between(t_b, Instant::now())));
         }
         stop.store(true, Ordering::Relaxed);
         let mut refused = 0;
